@@ -43,6 +43,12 @@ def models(tier):
                                       [("m", c, n) for c in (0, 1) for n in ("rq:3:own", "rq:3:r2", "rq:4:own", "rq:4:r2", "rq:3:foreign", "dpr")] +
                                       [("ans", 0), ("tick", 2)],
                                       MONS, max_socks=2, prelude=[("accept",), ("m", 0, "cer_p0"), ("accept",), ("m", 1, "cer_p1")]))
+    # requests arriving while the connection is in the second ready sub-state (DWR sent, DWA outstanding)
+    wd = copy.deepcopy(CFG3)
+    wd["node"].update({"idle_timeout": 2, "dwa_timeout": 30, "wakeup": 1})
+    out.append(monitors.ScenarioModel("connection-awaiting-DWA", wd,
+                                      [("m", 0, n) for n in ("rq:3:own", "rq:4:own", "rq:9:own", "rq:3:own:missing", "dwa", "dwr")] + [("ans", 0), ("tick", 1)],
+                                      MONS, max_socks=1, prelude=[("accept",), ("m", 0, "cer_p0"), ("tick", 3)]))
     return out
 
 
